@@ -276,6 +276,10 @@ func geoCheck2(op string, v []float64) (bool, string, string) {
 func runC14(r *rt.Run) {
 	th := r.Thorough()
 	radii := []float64{0, 1e-9, 1e-4, 0.2, 0.3, 1, 10, 1e3, 1e5, 1e6, 5e6, 1e7, piR - 1, piR}
+	// the top end of the radius range approached but not reached (and the
+	// quarter circumference, where the disc is a hemisphere, from both sides)
+	radii = append(radii, math.Nextafter(piR, 0), piR-1e-6, piR-1e-3, piR-0.1, piR-0.25, piR-0.3, piR-10, piR-1e3,
+		piR/2, math.Nextafter(piR/2, 0), math.Nextafter(piR/2, piR), piR/2-1e-3, piR/2+1e-3, piR/2-0.25, piR/2+0.25)
 	lats := []float64{-90, -89.999, -60, -1e-9, 0, 1e-9, 33, 60, 89.999, 90}
 	lons := []float64{-180, -179.999, -90, 0, 90, 179.999, 180}
 	if th {
@@ -567,6 +571,48 @@ func runC13(r *rt.Run) {
 		}
 		w.Outcome(fmt.Sprintf("r=%g", rr))
 	})
+	// probe first, radius second: every probe at a fixed latitude / longitude
+	// offset from the centre (same parallel, same meridian, diagonal; a ten
+	// thousandth of a degree to 30 degrees), with radii just either side of the
+	// probe's own distance
+	{
+		offs := []float64{0, 1e-4, 0.01, 0.25, 0.5, 0.9, 1, 2.5, 30}
+		var signed []float64
+		for _, o := range offs {
+			signed = append(signed, o)
+			if o != 0 {
+				signed = append(signed, -o)
+			}
+		}
+		r.Bounds["probe_first_offsets_deg"] = offs
+		grid := centres[special:]
+		r.ParFor(len(grid), func(i int, w *rt.Worker) {
+			c := grid[i]
+			for _, dla := range signed {
+				for _, dlo := range signed {
+					pl, po := c.lat+dla, c.lon+dlo
+					if pl > 90 || pl < -90 || (dla == 0 && dlo == 0) {
+						continue
+					}
+					d := sphere.Dist(c.lat, c.lon, pl, po)
+					tol := math.Max(1e-3, 1e-8*d)
+					for _, m := range []float64{2 * tol, 0.1, 1e-6 * d, 1e-3 * d} {
+						if m < 2*tol {
+							continue
+						}
+						for _, rr := range []float64{d - m, d + m} {
+							if rr < 0 || rr > piR {
+								continue
+							}
+							w.Trans++
+							w.Nontriv++
+							geoRun(w, "circle-point", c.lat, c.lon, rr, pl, po)
+						}
+					}
+				}
+			}
+		})
+	}
 	// the zero value of Circle against the probe grid
 	{
 		w := r.Worker()
